@@ -2,19 +2,287 @@
 package c07
 
 import (
+	"unicode/utf8"
+
 	"github.com/welllog/golib/strz"
 	"vh/vx"
 )
 
-// HexRoundTrip: HexParse(HexFormat(s)) == s for every byte string of length n.
+func isUpperHex(b byte) bool {
+	return vx.Or(vx.And(b >= '0', b <= '9'), vx.And(b >= 'A', b <= 'F'))
+}
+
+func isOct(b byte) bool { return vx.And(b >= '0', b <= '7') }
+
+// OctRoundTrip: OctalParse(OctalFormat(s)) == s for every byte string of length n; shape \ooo.
+func OctRoundTrip() {
+	n := vx.Param("n", 2)
+	s := vx.Bytes(n, "s")
+	orig := append([]byte(nil), s...)
+	f := strz.OctalFormat(s)
+	vx.Assert(len(f) == 4*n, "OctalFormat length is 4 per byte")
+	for i := 0; i < n; i++ {
+		vx.Assert(f[4*i] == '\\', "octal escape starts with backslash")
+		vx.Assert(vx.And(isOct(f[4*i+1]), vx.And(isOct(f[4*i+2]), isOct(f[4*i+3]))), "octal escape has three octal digits")
+	}
+	dst := make([]byte, len(f))
+	m := strz.OctalParse(dst, f)
+	vx.Assert(m == n, "OctalParse returns the original length")
+	vx.Assert(vx.EqBytes(dst[:m], orig), "OctalParse(OctalFormat(s)) == s")
+	vx.Assert(vx.EqBytes(s, orig), "OctalFormat does not modify its input")
+	vx.Assert(vx.EqStr(strz.OctalParseToString(strz.OctalFormatToString(string(orig))), string(orig)), "OctalParseToString(OctalFormatToString(s)) == s")
+	vx.Observe("fmt", f)
+}
+
+// HexRoundTrip: HexParse(HexFormat(s)) == s for every byte string of length n; shape \xXX upper case.
 func HexRoundTrip() {
 	n := vx.Param("n", 2)
 	s := vx.Bytes(n, "s")
+	orig := append([]byte(nil), s...)
 	f := strz.HexFormat(s)
 	vx.Assert(len(f) == 4*n, "HexFormat length is 4 per byte")
+	for i := 0; i < n; i++ {
+		vx.Assert(vx.And(f[4*i] == '\\', f[4*i+1] == 'x'), "hex escape starts with \\x")
+		vx.Assert(vx.And(isUpperHex(f[4*i+2]), isUpperHex(f[4*i+3])), "hex escape has two upper-case hex digits")
+	}
 	dst := make([]byte, len(f))
 	m := strz.HexParse(dst, f)
 	vx.Assert(m == n, "HexParse returns the original length")
-	vx.Assert(vx.EqBytes(dst[:m], s), "HexParse(HexFormat(s)) == s")
+	vx.Assert(vx.EqBytes(dst[:m], orig), "HexParse(HexFormat(s)) == s")
+	vx.Assert(vx.EqBytes(s, orig), "HexFormat does not modify its input")
+	vx.Assert(vx.EqStr(strz.HexParseToString(strz.HexFormatToString(string(orig))), string(orig)), "HexParseToString(HexFormatToString(s)) == s")
 	vx.Observe("fmt", f)
+}
+
+// symScalars builds a valid UTF-8 string of k arbitrary Unicode scalar values.
+func symScalars(k int) (string, int) {
+	var b []byte
+	over := 0
+	for i := 0; i < k; i++ {
+		r := vx.Rune("r")
+		vx.Assume(vx.And(r >= 0, r <= utf8.MaxRune))
+		vx.Assume(vx.Not(vx.And(r >= 0xD800, r <= 0xDFFF)))
+		if r > 0xFFFF {
+			over++
+		}
+		b = utf8.AppendRune(b, r)
+	}
+	return string(b), over
+}
+
+// UniRoundTrip: UnicodeParse(UnicodeFormat(s)) == s for s made of k arbitrary scalar values; shape \UXXXXXXXX.
+func UniRoundTrip() {
+	k := vx.Param("k", 2)
+	s, _ := symScalars(k)
+	f := strz.UnicodeFormat(s)
+	vx.Assert(len(f) == 10*k, "UnicodeFormat length is 10 per rune")
+	for i := 0; i < k; i++ {
+		vx.Assert(vx.And(f[10*i] == '\\', f[10*i+1] == 'U'), "unicode escape starts with \\U")
+		ok := true
+		for j := 2; j < 10; j++ {
+			ok = vx.And(ok, isUpperHex(f[10*i+j]))
+		}
+		vx.Assert(ok, "unicode escape has eight upper-case hex digits")
+	}
+	dst := make([]byte, len(f))
+	m := strz.UnicodeParse(dst, f)
+	vx.Assert(vx.EqStr(string(dst[:m]), s), "UnicodeParse(UnicodeFormat(s)) == s")
+	vx.Assert(vx.EqStr(strz.UnicodeParseToString(strz.UnicodeFormatToString(s)), s), "UnicodeParseToString(UnicodeFormatToString(s)) == s")
+	vx.Observe("fmt", f)
+}
+
+// U16RoundTrip: Utf16Parse(Utf16Format(s)) == s; shape \uXXXX with surrogate pairs above U+FFFF.
+func U16RoundTrip() {
+	k := vx.Param("k", 2)
+	s, over := symScalars(k)
+	f := strz.Utf16Format(s)
+	vx.Assert(len(f) == 6*(k+over), "Utf16Format length is 6 per UTF-16 code unit (pairs above U+FFFF)")
+	for i := 0; i < len(f)/6; i++ {
+		vx.Assert(vx.And(f[6*i] == '\\', f[6*i+1] == 'u'), "utf16 escape starts with \\u")
+		ok := true
+		for j := 2; j < 6; j++ {
+			ok = vx.And(ok, isUpperHex(f[6*i+j]))
+		}
+		vx.Assert(ok, "utf16 escape has four upper-case hex digits")
+	}
+	dst := make([]byte, len(f))
+	m := strz.Utf16Parse(dst, f)
+	vx.Assert(vx.EqStr(string(dst[:m]), s), "Utf16Parse(Utf16Format(s)) == s")
+	vx.Assert(vx.EqStr(strz.Utf16ParseToString(strz.Utf16FormatToString(s)), s), "Utf16ParseToString(Utf16FormatToString(s)) == s")
+	vx.Observe("fmt", f)
+}
+
+// UniInvalid: for arbitrary bytes, each invalid byte is encoded as U+FFFD: Parse(Format(s)) == string([]rune(s)).
+func UniInvalid() {
+	n := vx.Param("n", 2)
+	s := string(vx.Bytes(n, "s"))
+	want := string([]rune(s))
+	f := strz.UnicodeFormat(s)
+	dst := make([]byte, len(f))
+	m := strz.UnicodeParse(dst, f)
+	vx.Assert(vx.EqStr(string(dst[:m]), want), "UnicodeParse(UnicodeFormat(s)) == s with invalid bytes as U+FFFD")
+	f16 := strz.Utf16Format(s)
+	dst16 := make([]byte, len(f16))
+	m16 := strz.Utf16Parse(dst16, f16)
+	vx.Assert(vx.EqStr(string(dst16[:m16]), want), "Utf16Parse(Utf16Format(s)) == s with invalid bytes as U+FFFD")
+	vx.Observe("fmt", f, f16)
+}
+
+func noBackslash(b []byte) bool {
+	ok := true
+	for _, c := range b {
+		ok = vx.And(ok, c != '\\')
+	}
+	return ok
+}
+
+// parseArb: arbitrary input of n bytes: no panic, output at most n bytes, input without backslash unchanged.
+func parseArb(which int) {
+	n := vx.Param("n", 4)
+	src := vx.Bytes(n, "src")
+	orig := append([]byte(nil), src...)
+	dst := make([]byte, n)
+	var m int
+	var ts string
+	switch which {
+	case 0:
+		m = strz.OctalParse(dst, src)
+		ts = strz.OctalParseToString(string(orig))
+	case 1:
+		m = strz.HexParse(dst, src)
+		ts = strz.HexParseToString(string(orig))
+	case 2:
+		m = strz.UnicodeParse(dst, src)
+		ts = strz.UnicodeParseToString(string(orig))
+	case 3:
+		m = strz.Utf16Parse(dst, src)
+		ts = strz.Utf16ParseToString(string(orig))
+	}
+	vx.Assert(vx.And(m >= 0, m <= n), "Parse produces at most len(input) bytes")
+	vx.Assert(vx.EqBytes(src, orig), "Parse does not modify its input")
+	vx.Assert(vx.EqStr(ts, string(dst[:m])), "ParseToString agrees with Parse")
+	vx.Assert(vx.Implies(noBackslash(orig), vx.EqBytes(dst[:m], orig)), "input without backslash is returned unchanged")
+	vx.Observe("out", dst[:m])
+}
+
+func OctArb() { parseArb(0) }
+func HexArb() { parseArb(1) }
+func UniArb() { parseArb(2) }
+func U16Arb() { parseArb(3) }
+
+func hexDigit(v byte, upper bool) byte {
+	return vx.IteU8(v < 10, '0'+v, vx.IteU8(upper, 'A'+v-10, 'a'+v-10))
+}
+
+func symText(n int, name string) []byte {
+	b := vx.Bytes(n, name)
+	vx.Assume(noBackslash(b))
+	return b
+}
+
+func cat(parts ...[]byte) []byte {
+	var out []byte
+	for _, p := range parts {
+		out = append(out, p...)
+	}
+	return out
+}
+
+// OctEmbed: pre ++ \ooo ++ post decodes to pre ++ byte ++ post for every value 0..255.
+func OctEmbed() {
+	pre := symText(vx.Param("np", 1), "pre")
+	post := symText(vx.Param("nq", 1), "post")
+	v := vx.Byte("v")
+	esc := []byte{'\\', '0' + v>>6, '0' + (v>>3)&7, '0' + v&7}
+	in := cat(pre, esc, post)
+	want := cat(pre, []byte{v}, post)
+	dst := make([]byte, len(in))
+	m := strz.OctalParse(dst, in)
+	vx.Assert(vx.EqBytes(dst[:m], want), "embedded well-formed octal escape is decoded and the surrounding text preserved")
+	vx.Assert(vx.EqStr(strz.OctalParseToString(in), string(want)), "OctalParseToString: embedded escape decoded")
+	vx.Observe("out", dst[:m])
+}
+
+// HexEmbed: pre ++ \xHH ++ post (either letter case per digit) decodes to pre ++ byte ++ post.
+func HexEmbed() {
+	pre := symText(vx.Param("np", 1), "pre")
+	post := symText(vx.Param("nq", 1), "post")
+	v := vx.Byte("v")
+	esc := []byte{'\\', 'x', hexDigit(v>>4, vx.Bool("u1")), hexDigit(v&15, vx.Bool("u2"))}
+	in := cat(pre, esc, post)
+	want := cat(pre, []byte{v}, post)
+	dst := make([]byte, len(in))
+	m := strz.HexParse(dst, in)
+	vx.Assert(vx.EqBytes(dst[:m], want), "embedded well-formed hex escape is decoded and the surrounding text preserved")
+	vx.Assert(vx.EqStr(strz.HexParseToString(in), string(want)), "HexParseToString: embedded escape decoded")
+	vx.Observe("out", dst[:m])
+}
+
+func hexEsc(prefix byte, v uint32, digits int) []byte {
+	out := []byte{'\\', prefix}
+	for i := digits - 1; i >= 0; i-- {
+		out = append(out, hexDigit(byte(v>>(4*uint(i)))&15, vx.Bool("up")))
+	}
+	return out
+}
+
+// UniEmbed: pre ++ \UXXXXXXXX ++ post for every code point value <= 0x10FFFF (surrogate values become U+FFFD
+// as utf8.EncodeRune documents).
+func UniEmbed() {
+	pre := symText(vx.Param("np", 1), "pre")
+	post := symText(vx.Param("nq", 1), "post")
+	v := vx.Uint32("v")
+	vx.Assume(v <= utf8.MaxRune)
+	in := cat(pre, hexEsc('U', v, 8), post)
+	want := cat(pre, utf8.AppendRune(nil, rune(v)), post)
+	dst := make([]byte, len(in))
+	m := strz.UnicodeParse(dst, in)
+	vx.Assert(vx.EqBytes(dst[:m], want), "embedded well-formed \\U escape is decoded and the surrounding text preserved")
+	vx.Assert(vx.EqStr(strz.UnicodeParseToString(in), string(want)), "UnicodeParseToString: embedded escape decoded")
+	vx.Observe("out", dst[:m])
+}
+
+// U16Embed: BMP non-surrogate unit, or a proper high/low surrogate pair.
+func U16Embed() {
+	pre := symText(vx.Param("np", 1), "pre")
+	post := symText(vx.Param("nq", 1), "post")
+	var esc, val []byte
+	if vx.Choose(2) == 0 {
+		v := vx.Uint32("v")
+		vx.Assume(vx.And(v <= 0xFFFF, vx.Or(v < 0xD800, v > 0xDFFF)))
+		esc = hexEsc('u', v, 4)
+		val = utf8.AppendRune(nil, rune(v))
+		vx.Cover("bmp unit")
+	} else {
+		r := vx.Uint32("r")
+		vx.Assume(vx.And(r >= 0x10000, r <= utf8.MaxRune))
+		hi := 0xD800 + (r-0x10000)>>10
+		lo := 0xDC00 + (r-0x10000)&0x3FF
+		esc = cat(hexEsc('u', hi, 4), hexEsc('u', lo, 4))
+		val = utf8.AppendRune(nil, rune(r))
+		vx.Cover("surrogate pair")
+	}
+	in := cat(pre, esc, post)
+	want := cat(pre, val, post)
+	dst := make([]byte, len(in))
+	m := strz.Utf16Parse(dst, in)
+	vx.Assert(vx.EqBytes(dst[:m], want), "embedded well-formed \\u escape (or surrogate pair) is decoded and the surrounding text preserved")
+	vx.Assert(vx.EqStr(strz.Utf16ParseToString(in), string(want)), "Utf16ParseToString: embedded escape decoded")
+	vx.Observe("out", dst[:m])
+}
+
+var Harnesses = map[string]func(){
+	"vh/c07.OctRoundTrip": OctRoundTrip,
+	"vh/c07.HexRoundTrip": HexRoundTrip,
+	"vh/c07.UniRoundTrip": UniRoundTrip,
+	"vh/c07.U16RoundTrip": U16RoundTrip,
+	"vh/c07.UniInvalid":   UniInvalid,
+	"vh/c07.OctArb":       OctArb,
+	"vh/c07.HexArb":       HexArb,
+	"vh/c07.UniArb":       UniArb,
+	"vh/c07.U16Arb":       U16Arb,
+	"vh/c07.OctEmbed":     OctEmbed,
+	"vh/c07.HexEmbed":     HexEmbed,
+	"vh/c07.UniEmbed":     UniEmbed,
+	"vh/c07.U16Embed":     U16Embed,
 }
